@@ -7,8 +7,8 @@ import (
 
 	protocol "github.com/longportapp/openapi-protocol/go"
 	"github.com/longportapp/openapi-protocol/go/gzip"
-	"github.com/longportapp/openapi-protocol/go/verifhook"
 	v1 "github.com/longportapp/openapi-protocol/go/v1"
+	"github.com/longportapp/openapi-protocol/go/verifhook"
 )
 
 func init() {
